@@ -135,7 +135,7 @@ class World:
         self.scale_bits = scale_bits if scale_bits is not None else rng_.choice([10, 20, 30, 40, 50, 64, 66, 80, 96])
         n_native = n_native or rng_.choice([2, 3])
         n_cw20 = n_cw20 or rng_.choice([3, 4])
-        denom_pool = ["uaura", "uusd", "ibc/27394fb092d2eccd56123c74f36e4c1f926001ceada9ca97ea622b25f41e5eb2", "utaura"]
+        denom_pool = ["uaura", "uusd", "ibc/27394FB092D2ECCD56123C74F36E4C1F926001CEADA9CA97EA622B25F41E5EB2", "utaura"]
         rng_.shuffle(denom_pool)
         self.natives = [("n", d) for d in denom_pool[:n_native]]
         self.decimals = {}
